@@ -21,7 +21,9 @@ BFUNCS = [("DocumentBuilder::proc_location", r"^void DocumentBuilder::proc_locat
           ("DocumentBuilder::proc_guard", r"^void DocumentBuilder::proc_guard\(\)"),
           ("DocumentBuilder::proc_sync", r"^void DocumentBuilder::proc_sync\(synchronisation_t type\)"),
           ("DocumentBuilder::proc_update", r"^void DocumentBuilder::proc_update\(\)"),
-          ("DocumentBuilder::proc_prob", r"^void DocumentBuilder::proc_prob\(\)")]
+          ("DocumentBuilder::proc_prob", r"^void DocumentBuilder::proc_prob\(\)"),
+          ("DocumentBuilder::proc_select", r"^void DocumentBuilder::proc_select\(const char\* id\)"),
+          ("DocumentBuilder::addSelectSymbolToFrame", r"^void DocumentBuilder::addSelectSymbolToFrame\(const std::string& id, frame_t& frame, position_t pos\)")]
 
 
 def write(work, name, text):
@@ -35,6 +37,8 @@ def builder_slices(work):
     hpp = X.Source("include/utap/ExpressionBuilder.hpp")
     fc = X.braced(hpp, "class ExpressionBuilder::ExpressionFragments", r"^\s*class ExpressionFragments\b")
     write(work, "fragments_class.inc", fc.text + "\n")
+    tfc = X.braced(hpp, "class ExpressionBuilder::TypeFragments", r"^\s*class TypeFragments\b")
+    write(work, "typefragments_class.inc", tfc.text + "\n")
     fl = [X.function(eb, "ExpressionFragments::pop(n)", r"^void ExpressionBuilder::ExpressionFragments::pop\(uint32_t n\)"),
           X.function(eb, "ExpressionBuilder::make_constant(int)", r"^expression_t ExpressionBuilder::make_constant\(int value\) const"),
           X.function(eb, "ExpressionBuilder::push_frame", r"^void ExpressionBuilder::push_frame\(frame_t frame\)"),
@@ -45,7 +49,7 @@ def builder_slices(work):
     for name, rx in BFUNCS:
         fl.append(X.function(db, name, rx))
     for sl in fl:
-        sl.sub("glue:name spelling->name identity", r"const char\* (name|from|to)\b|const std::string& name", lambda m: "verif_name " + (m.group(1) or "name"))
+        sl.sub("glue:name spelling->name identity", r"const char\* (name|from|to|id)\b|const std::string& (name|id)\b", lambda m: "verif_name " + (m.group(1) or m.group(2)))
         sl.sub("glue:string value->identity", r"const char\* actname", "verif_str actname")
         sl.sub("L23:std::move(x)->x", r"std::move\((\w+)\)", r"\1")
         sl.sub("L4:T{...} / T(\"...\")", r"TypeException(\{[^}]*\}|\(\"[^\"]*\"\))", "TypeException()")
@@ -198,7 +202,8 @@ def build(tier, work, builder):
                     ("location_flags", ["DocumentBuilder::proc_location_urgent", "DocumentBuilder::proc_location_commit"]),
                     ("init", ["DocumentBuilder::proc_location_init"]),
                     ("edge", ["DocumentBuilder::proc_edge_begin", "DocumentBuilder::proc_edge_end", "template_t::add_edge", "ExpressionBuilder::push_frame", "ExpressionBuilder::popFrame", "ExpressionBuilder::resolve"]),
-                    ("labels", ["DocumentBuilder::proc_guard", "DocumentBuilder::proc_sync", "DocumentBuilder::proc_update", "DocumentBuilder::proc_prob"])):
+                    ("labels", ["DocumentBuilder::proc_guard", "DocumentBuilder::proc_sync", "DocumentBuilder::proc_update", "DocumentBuilder::proc_prob"]),
+                    ("select", ["DocumentBuilder::proc_select", "DocumentBuilder::addSelectSymbolToFrame"])):
         jobs.append(F.Job("c04_builder_" + nm, "h_c04_builder_" + nm, [obj, hobj], unwind=14, functions=fns,
                           bound_note="templates of <= 2 locations, 1 branchpoint, <= 2 earlier edges; <= 4 fragments"))
     # the system section: "every instantiation argument bound to the positionally corresponding parameter" is the contract of
